@@ -157,6 +157,9 @@ template <typename F> static std::string guarded(F f) {
 		return "ERR:" + e.name;
 	} catch (Event& e) {
 		return "ERR:" + e.name;
+	} catch (std::bad_alloc& e) {
+		// e.g. getLuaAsData padding an array up to a huge integer key; the process runs under ulimit -v
+		return "ERR:bad_alloc";
 	}
 }
 
@@ -238,13 +241,13 @@ static std::string cmd_num(const std::vector<std::string>& a) {
 // Destroying an interpreter within about a millisecond of its creation can hang in
 // BasicDelayedEventQueue::stop() (event_base_loopbreak before the timer thread has entered
 // event_base_loop: the wake-up is lost and join() never returns) -- a life-cycle defect that belongs
-// to C10, not to this property.  Finished interpreters are therefore parked and destroyed 48 runs
+// to C10, not to this property.  Finished interpreters are therefore parked and destroyed 24 runs
 // later, when their timer thread has long been blocked inside its loop; the last ones are leaked
 // at process exit on purpose.
 static void park(const Interpreter& interp) {
 	static std::list<Interpreter>* parked = new std::list<Interpreter>();
 	parked->push_back(interp);
-	if (parked->size() > 48) parked->pop_front();
+	if (parked->size() > 24) parked->pop_front();
 }
 
 struct RtMonitor : public InterpreterMonitor {
@@ -269,8 +272,8 @@ struct RtMonitor : public InterpreterMonitor {
 	}
 	void beforeTakingTransition(const std::string& sessionId, const XERCESC_NS::DOMElement* transition) override {
 		if (curr == "out" && res.find("evdata") == res.end()) {
-			res["evdata"] = guarded([&]() { return dumps(impl->evalAsData("_event.data.q")); });
 			res["expr"] = guarded([&]() { return dumps(impl->evalAsData("w")); });
+			res["evdata"] = guarded([&]() { return dumps(impl->evalAsData("_event.data.q")); });
 		}
 		if (curr == "done.state.c" && res.find("devdata") == res.end()) {
 			res["devdata"] = guarded([&]() { return dumps(impl->evalAsData("_event.data.q")); });
@@ -315,13 +318,13 @@ static std::string cmd_rt(const std::vector<std::string>& a) {
 	if (way == "print") return hex(rt_chart("param", lit));
 	CoutSilencer q;
 	RtMonitor mon;
-	std::string out;
+	std::string exc;
+	InterpreterState st = USCXML_UNDEF;
 	try {
 		Interpreter interp = Interpreter::fromXML(rt_chart(way, lit), "");
 		mon.impl = interp.getImpl();
 		interp.addMonitor(&mon);
 		bool injected = !(way == "payload" || way == "assigndata");
-		InterpreterState st = USCXML_UNDEF;
 		for (int n = 0; n < 200; n++) {
 			st = interp.step(0);
 			if (st == USCXML_FINISHED) break;
@@ -337,21 +340,22 @@ static std::string cmd_rt(const std::vector<std::string>& a) {
 				interp.receive(e);
 			}
 		}
-		std::ostringstream o;
-		const char* keys[] = {"expr", "send", "evdata", "dsend", "devdata"};
-		for (const char* k : keys) {
-			auto it = mon.res.find(k);
-			o << k << "=" << (it == mon.res.end() ? std::string("MISSING") : it->second) << " ";
-		}
-		o << "errs=" << mon.errs << " st=" << (int)st;
-		out = o.str();
 		mon.impl.reset();
 		interp.removeMonitor(&mon);
 		park(interp);
 	} catch (Event& e) {
-		out = "EXC:" + e.name;
+		exc = "ERR:" + e.name;
+	} catch (std::bad_alloc& e) {
+		exc = "ERR:bad_alloc";
 	}
-	return out;
+	std::ostringstream o;
+	const char* keys[] = {"expr", "send", "evdata", "dsend", "devdata"};
+	for (const char* k : keys) {
+		auto it = mon.res.find(k);
+		o << k << "=" << (it == mon.res.end() ? (exc.empty() ? std::string("MISSING") : exc) : it->second) << " ";
+	}
+	o << "errs=" << mon.errs << " st=" << (int)st << (exc.empty() ? "" : " exc=" + exc);
+	return o.str();
 }
 
 // system variables as seen by the datamodel, for the before/after comparison
@@ -402,14 +406,14 @@ static std::string cmd_protect(const std::vector<std::string>& a) {
 	}
 	// chart level: in state s0 the persistent system variables are read; the event "probe" (payload
 	// "payload") enters s1, where the location is attacked by <assign> in an <onentry> block of its
-	// own, or by a late-bound <data>; a second <onentry> block copies _event.data to vd_seen before the
-	// error event (if any) is processed.
+	// own, or by a late-bound <data>; a second <onentry> block copies _event to vd_seen before the
+	// error event (if any) is processed (name, type and data of _event, as one string).
 	std::ostringstream x;
 	x << "<scxml xmlns=\"http://www.w3.org/2005/07/scxml\" version=\"1.0\" datamodel=\"lua\" name=\"vdchart\" binding=\"late\" initial=\"s0\">\n";
 	x << " <state id=\"s0\"><transition event=\"probe\" target=\"s1\"/></state>\n <state id=\"s1\">";
 	if (mode == "chart-data") x << "<datamodel><data id=\"" << xmlesc(loc) << "\" expr=\"'pwned'\"/></datamodel>";
 	if (mode == "chart-assign") x << "<onentry><assign location=\"" << xmlesc(loc) << "\" expr=\"'pwned'\"/></onentry>";
-	x << "<onentry><assign location=\"vd_seen\" expr=\"_event and _event.data\"/></onentry>";
+	x << "<onentry><assign location=\"vd_seen\" expr=\"type(_event) == 'table' and (tostring(_event.name)..'|'..tostring(_event.type)..'|'..tostring(_event.data))\"/></onentry>";
 	x << "</state>\n</scxml>\n";
 	try {
 		Interpreter interp = Interpreter::fromXML(x.str(), "");
@@ -421,7 +425,7 @@ static std::string cmd_protect(const std::vector<std::string>& a) {
 		Event p("probe", Event::EXTERNAL);
 		p.data = Data("payload", Data::VERBATIM);
 		std::string payloadTree = dumps(p.data);
-		auto ev = [&](const std::string& n) { return n == "_event" ? Data("payload", Data::VERBATIM) : impl->evalAsData(n); };
+		auto ev = [&](const std::string& n) { return n == "_event" ? Data("probe|external|payload", Data::VERBATIM) : impl->evalAsData(n); };
 		auto before = snapshot(ev);
 		interp.receive(p);
 		run();
